@@ -12,6 +12,7 @@
 From Oras Require Import Base.Prelude Generated.GC10 Model.OciCrash Model.OciCrashSpec Proofs.OciCrash.
 From Oras Require Model.OciGC Proofs.OciGC.
 From Oras Require Import Proofs.OciCrashGC.
+From Oras Require Import Model.OciCrashConc Proofs.OciCrashConc.
 
 (* For every digest/size verification function H, every iteration order of saveIndex,
    every history h of completed Push/Tag/Untag/Delete/SaveIndex operations on a freshly
@@ -306,6 +307,45 @@ Theorem C10_api_reopen_refuted_undecodable :
     load_okb mt dec (sfs (run H (fun _ l => l) false false true os init)) = false.
 Proof. exact reopen_refuted_undecodable. Qed.
 Print Assumptions C10_api_reopen_refuted_undecodable.
+
+(* Concurrent callers (Model/OciCrashConc.v).  Push, Tag, Untag and SaveIndex hold the Store's
+   RWMutex for reading and run concurrently (Delete and GC run alone: the sequential model).
+   Threads execute atomic actions -- append to the own ingest file, publish it (rename to
+   blobs/<d>) once verified, update the resolver, and saveIndex as the critical section of
+   indexLock (snapshot of the resolver when the lock is taken, published by one rename).
+   For every history with earlier crashes, every set of concurrent calls and EVERY schedule
+   (list of thread ids; a crash is the configuration after any prefix): oci-layout valid,
+   every blob complete and matching its name, index.json parses and names only existing
+   blobs, and every blob that was there when the calls started is there. *)
+Theorem C10_conc_crash_safe :
+  forall (H : list N -> N) (shuffle : nat -> list entry -> list entry),
+    (forall c l e, In e (shuffle c l) <-> In e l) ->
+    forall (h : list hop) (calls : list ccall) (is : list nat),
+      let s := runc H shuffle src_inplace src_unlink_first true h init in
+      let c := sched shuffle (start H s calls) is in
+      layout_ok (cfs c) /\ blob_ok H (cfs c) /\ index_ok (cfs c) /\
+      (forall d, has (sfs s) (FBlob d) -> has (cfs c) (FBlob d)).
+Proof. exact conc_crash_safe_src. Qed.
+Print Assumptions C10_conc_crash_safe.
+
+(* the order "publish the blob, then enter it into the resolver" is needed: a thread that tags
+   first lets saveIndex write an entry for a blob that is not there yet *)
+Theorem C10_conc_refuted_tag_before_publish :
+  exists (H : list N -> N) (t : thread) (is : list nat),
+    let c := sched (fun _ l => l) (mkConf init_fs [] [] false 0 [t]) is in
+    ~ index_ok (cfs c).
+Proof. exact conc_unsafe_tag_before_publish. Qed.
+Print Assumptions C10_conc_refuted_tag_before_publish.
+
+Example C10_conc_example :
+  let H := fun c : list N => match c with [7] => 1 | [8] => 2 | [9] => 3 | _ => 0 end in
+  let id := fun (_ : nat) (l : list entry) => l in
+  let s := runc H id src_inplace src_unlink_first true [Done (Push 3 [9] true)] init in
+  let c := sched id (start H s [CPush 1 [7] true; CPush 2 [8] true; CTag 3 5]) [0; 2; 0; 2; 0; 2; 0; 1; 2]%nat in
+  read_index (cfs c) = Some [(3, Some 5)] /\
+  exists_file (cfs c) (FBlob 1) = true /\ exists_file (cfs c) (FBlob 2) = false /\
+  cdigs c = [1; 3] /\ clock c = false.
+Proof. vm_compute. repeat split; reflexivity. Qed.
 
 (* Nothing that a reader looks at is ever written in place: every create / truncate /
    write / chmod micro-step of every operation targets a temporary (ingest/<d>_<rnd> or
